@@ -71,7 +71,7 @@ func runShard(p *Prop, tier string, seed int64, shard, shards int, dir string, w
 		cmd.Stdout = &stderr
 		cmd.Env = append(os.Environ(), "GOTRACEBACK=all")
 		if p.Race {
-			cmd.Env = append(cmd.Env, "GORACE=halt_on_error=0 log_path="+base+".race")
+			cmd.Env = append(cmd.Env, "GORACE=halt_on_error=0 exitcode=0 log_path="+base+".race")
 		}
 		if err := cmd.Start(); err != nil {
 			out.incompl = "cannot start worker: " + err.Error()
@@ -158,7 +158,7 @@ func runSingle(p *Prop, tier string, seed int64, idx int, dir string, limit time
 	cmd.Stdout = &stderr
 	cmd.Env = append(os.Environ(), "GOTRACEBACK=all", "VERIF_CASE_TIMEOUT=60")
 	if p.Race {
-		cmd.Env = append(cmd.Env, "GORACE=halt_on_error=0 log_path="+base+".race")
+		cmd.Env = append(cmd.Env, "GORACE=halt_on_error=0 exitcode=0 log_path="+base+".race")
 	}
 	if err := cmd.Start(); err != nil {
 		return nil, false, false, err.Error()
